@@ -9,7 +9,7 @@ import sys
 from typing import Any, get_args
 from geneticengine.exceptions import GeneticEngineError
 from geneticengine.grammar.grammar import Grammar
-from geneticengine.random.sources import RandomSource
+from geneticengine.random.sources import RandomSource, clamp_float
 
 from geneticengine.representations.api import (
     RepresentationWithCrossover,
@@ -51,8 +51,8 @@ class ListWrapper(RandomSource):
         e = self.randint(1, 10)
         k = pow(b, e)
         v = 1 * (max - min) / k + min
-        # (min + (max - min) can round above max)
-        return max if v > max else v
+        # (rounding, or integer bounds without an exact float form, can leave the range by one ulp)
+        return clamp_float(v, min, max)
 
 
 def add_to_stacks(stacks: dict[type, list[Any]], t: type, v: Any):
